@@ -59,6 +59,18 @@ Theorem C03_setup_teardown_edges_every_project : forall si force suites g s',
 Proof. exact suite_phases. Qed.
 Print Assumptions C03_setup_teardown_edges_every_project.
 
+(* Session-scoped fixtures, for EVERY project with a session setup task (and at least one suite): the session setup task is a
+   (transitive) dependency of every other task of the run and the session teardown task (transitively) depends on every other
+   task — so, by C03_setup_before_consumers_teardown_after, the session fixtures are set up before anything else starts and
+   torn down after everything else has finished, for every thread count and interleaving. *)
+Theorem C03_session_brackets_every_project : forall si force suites g,
+  si_session si = true -> suites <> [] -> build_tasks si force suites = Some g ->
+  t_kind (get_task g 0) = KSessionSetup /\ t_kind (get_task g (length g - 1)) = KSessionTeardown /\ 2 <= length g /\
+  (forall i, 0 < i < length g -> dep_path g i 0) /\
+  (forall i, i < length g - 1 -> dep_path g (length g - 1) i).
+Proof. exact session_brackets. Qed.
+Print Assumptions C03_session_brackets_every_project.
+
 (* the edges themselves, on a concrete project: the teardown of a suite waits on completion of the suite's setup and tests,
    the session teardown on the end of the top suite, tests on the suite setup (non-vacuity of the hypotheses above;
    for arbitrary projects the graph is compared with runner.build_tasks on every run) *)
